@@ -54,6 +54,7 @@ func c14FreshState(r *an.Run) {
 		if f == nil {
 			continue
 		}
+		f = changeLoopHost(r, f)
 		n := 0
 		for _, c := range an.CallsTo(f, enginePath+".NewChangelog") {
 			n++
